@@ -255,6 +255,17 @@ LeakT(n, D) ==
           ELSE [n1 EXCEPT !.kids = [ i \in DOMAIN n.kids |-> LeakT(n.kids[i], D) ]]
 RECURSIVE StripCls(_)
 StripCls(n) == IF IsAtom(n) THEN [n EXCEPT !.o = 0] ELSE [n EXCEPT !.cls = "", !.o = 0, !.kids = [ i \in DOMAIN n.kids |-> StripCls(n.kids[i]) ]]
+
+(* ---- C09: two models built from the same sub-proposition objects ------------------------------------ *)
+\* the object index o of the projection numbers Python objects in order of first appearance; with deliberately shared objects it is
+\* not comparable with a freshly built model, everything else is
+RECURSIVE StripO(_)
+StripO(n) == IF IsAtom(n) THEN [n EXCEPT !.o = 0] ELSE [n EXCEPT !.o = 0, !.kids = [ i \in DOMAIN n.kids |-> StripO(n.kids[i]) ]]
+EvSharedBuild(e) ==
+  Fail("store_unchanged", e.first_after_build = e.first_before.node /\ e.first_after = e.first_before)
+  \cup Fail("result_as_fresh", /\ [e.first_before EXCEPT !.node = StripO(@)] = [e.first_fresh EXCEPT !.node = StripO(@)]
+                               /\ [e.second EXCEPT !.node = StripO(@)] = [e.second_fresh EXCEPT !.node = StripO(@)])
+
 \* another live object that shares sub-objects with the called one sees the overwrite on the shared sub-objects only: it equals
 \* its former self except that bounds of sub-propositions named in the dictionary may have become the named value
 RECURSIVE LeakSome(_, _, _)
@@ -348,6 +359,7 @@ Verdict(e) ==
      [] e.op = "b64"       -> EvB64(e)
      [] e.op = "b64poly"   -> EvB64Poly(e)
      [] e.op = "history"   -> EvHistory(e)
+     [] e.op = "shared_build" -> EvSharedBuild(e)
      [] e.op = "results_stable" -> Fail("result_stable", e.later = e.first)
      [] e.op = "l_evaluate" -> EvLEvaluate(e)
      [] e.op = "l_negate"  -> EvLNegate(e)
